@@ -962,6 +962,24 @@ def _convert_to_hill_notation(atoms):
     return tuple((atoms[el], el) for el in sorted(atoms.keys(), key=_hill_key))
 
 
+def _str_count(count):
+    """
+    Convert count to string with six significant digits.
+
+    This is the %g format, except that the formula grammar has no exponent
+    form, so very large and very small counts are written out in full.
+    """
+    text = "%g"%count
+    if 'e' not in text:
+        return text
+    mantissa, exponent = text.split('e')
+    sign = '-' if mantissa.startswith('-') else ''
+    digits = mantissa.lstrip('-').replace('.', '')
+    exponent = int(exponent)
+    if exponent < 0:
+        return sign + '0.' + '0'*(-exponent-1) + digits
+    return sign + digits + '0'*(exponent+1-len(digits))
+
 def _str_atoms(seq):
     """
     Convert formula structure to string.
@@ -982,12 +1000,12 @@ def _str_atoms(seq):
                 value = str(abs(fragment.charge)) if abs(fragment.charge) > 1 else ''
                 ret += '{'+value+sign+'}'
             if count != 1:
-                ret += "%g"%count
+                ret += _str_count(count)
         else:
             if count == 1:
                 piece = _str_atoms(fragment)
             else:
-                piece = "(%s)%g"%(_str_atoms(fragment), count)
+                piece = "(%s)%s"%(_str_atoms(fragment), _str_count(count))
             #ret = ret+" "+piece if ret else piece
             ret += piece
 
